@@ -27,7 +27,7 @@ def hyper(rng, kind):
         damp = rng.pick([0.0, 0.0, 0.25])
         return {'lr': rng.pick([0.1, 0.01, 0.5]), 'momentum': mom, 'dampening': damp, 'weight_decay': rng.pick([0.0, 0.0, 0.1, 0.5]),
                 'nesterov': nes, 'maximize': rng.chance(0.3)}
-    return {'lr': rng.pick([0.1, 0.001, 0.05]), 'betas': rng.pick([(0.9, 0.999), (0.5, 0.75), (0.0, 0.9)]), 'eps': rng.pick([1e-8, 1e-3]),
+    return {'lr': rng.pick([0.1, 0.001, 0.05]), 'betas': rng.pick([(0.9, 0.999), (0.5, 0.75), (0.0, 0.9)]), 'eps': rng.pick([1e-8, 1e-8, 1e-3, 0.0]),
             'weight_decay': rng.pick([0.0, 0.0, 0.1, 0.7]), 'maximize': rng.chance(0.3)}
 
 
@@ -51,7 +51,11 @@ def gen(rng, tier, kind=None, hp=None, nev=None):
             evs.append(('step',))
         else:
             evs.append(('rg', rng.randrange(npar), rng.chance(0.5)))
-    return {'opt': kind, 'hp': hp, 'thetas': thetas, 'rgs': rgs, 'evs': evs, 'seed_lay': rng.randrange(4)}
+    # parameter dtype (float32 is the library default) and the magnitude regime of the gradients (Adam's eps only matters for tiny ones)
+    scale = rng.pick([1.0, 1.0, 1e-3, 1e-6, 1e-6, 1e4])
+    if scale != 1.0:
+        evs = [('bw', {i: [v * scale for v in g] for i, g in e[1].items()}) if e[0] == 'bw' else e for e in evs]
+    return {'opt': kind, 'hp': hp, 'thetas': thetas, 'rgs': rgs, 'evs': evs, 'seed_lay': rng.randrange(4), 'dt': rng.pick(['f64', 'f64', 'f32'])}
 
 
 def _ctor_line(c):
@@ -125,14 +129,14 @@ def _run(c, observe):
     # an even-sized parameter is a (2, n/2) matrix stored column-major / as a transposed view / as a slice of a wider buffer.
     # The model sees the values in row-major order of the logical matrix.
     def param(t, k):
-        a = np.array(t, dtype=np.float64)
+        a = np.array(t, dtype=np.float32 if c.get('dt') == 'f32' else np.float64)
         lay = (c.get('seed_lay', 0) + k) % 4
         if len(t) % 2 == 0 and len(t) >= 2 and lay:
             a = a.reshape(2, len(t) // 2)
             if lay == 1: a = np.asfortranarray(a)
             elif lay == 2: a = np.ascontiguousarray(a.T).T
             else:
-                big = np.full((2, a.shape[1] + 2), 9.0); big[:, 1:-1] = a; a = big[:, 1:-1]
+                big = np.full((2, a.shape[1] + 2), 9.0, dtype=a.dtype); big[:, 1:-1] = a; a = big[:, 1:-1]
         return a
     ps = [sg.Tensor(param(t, k), requires_grad=rg) for k, (t, rg) in enumerate(zip(c['thetas'], c['rgs']))]
     hp = dict(c['hp'])
@@ -142,7 +146,7 @@ def _run(c, observe):
     observe('ctor', ps, ids)
     for e in c['evs']:
         if e[0] == 'bw':
-            terms = [(ps[i] * sg.Tensor(np.array(g, dtype=np.float64).reshape(ps[i].shape))).sum() for i, g in sorted(e[1].items()) if ps[i].requires_grad]
+            terms = [(ps[i] * sg.Tensor(np.array(g, dtype=ps[i].data.dtype).reshape(ps[i].shape))).sum() for i, g in sorted(e[1].items()) if ps[i].requires_grad]
             if terms:
                 loss = terms[0]
                 for t in terms[1:]:
@@ -174,7 +178,7 @@ def impl(c):
         out.append(show_floats(np.concatenate([p.data.ravel() for p in ps])))
         out.append(','.join('-' if p._grad is None else str(fbits(v)) for p in ps for v in (p._grad.ravel() if p._grad is not None else [None] * p.data.size)) if True else '')
         if [id(p.data) for p in ps] != ids: flags['inplace'] = False
-        if any(p.data.dtype != np.float64 or p.data.size != len(t) for p, t in zip(ps, c['thetas'])): flags['dtype'] = False
+        if any(p.data.dtype != (np.float32 if c.get('dt') == 'f32' else np.float64) or p.data.size != len(t) for p, t in zip(ps, c['thetas'])): flags['dtype'] = False
     r = outcome(lambda: _run(c, observe))
     c['_flags'] = flags
     if r == 'rejected':
@@ -184,11 +188,13 @@ def impl(c):
     return out
 
 
-def _close(a, b):
+def _close(a, b, tol=1e-10):
     if a == b: return True
     if a in ('-', '?', 'rejected') or b in ('-', '?', 'rejected'): return False
     x, y = common.bitsf(a), common.bitsf(b)
-    return abs(x - y) <= 1e-10 * (1 + abs(x) + abs(y))
+    if x != x or y != y: return x != x and y != y          # eps = 0 with an all-zero gradient history: 0/0 on both sides
+    if abs(x) == float('inf') or abs(y) == float('inf'): return x == y
+    return abs(x - y) <= tol * (1 + abs(x) + abs(y)) or abs(x - y) <= 1e-4 * max(abs(x), abs(y)) * (tol > 1e-9)
 
 
 def compare(c, mo, io):
@@ -198,7 +204,8 @@ def compare(c, mo, io):
     for k, (m, i) in enumerate(zip(mo, io)):
         if m == i: continue
         ms, is_ = m.split(','), i.split(',')
-        if len(ms) != len(is_) or not all(_close(a, b) for a, b in zip(ms, is_)):
+        tol = 2e-6 if c.get('dt') == 'f32' else 1e-10
+        if len(ms) != len(is_) or not all(_close(a, b, tol) for a, b in zip(ms, is_)):
             diffs.append((c['lines'][k], m, i))
             break
     fl = c.get('_flags', {})
@@ -224,6 +231,12 @@ def distribution(cases):
 
 
 # ---- the published recursions, evaluated independently in Python floats -------------------------
+def _div(a, b):
+    """IEEE division (Python raises on a zero divisor)"""
+    if b != 0: return a / b
+    return float('nan') if a == 0 or a != a else float('inf') * (1 if a > 0 else -1)
+
+
 def _spec(c):
     """trajectory of every scalar parameter from the documented recursions; returns list of value lists per event"""
     hp, kind = c['hp'], c['opt']
@@ -264,7 +277,7 @@ def _spec(c):
                         s['m'] = b1 * s['m'] + (1 - b1) * g
                         s['v'] = b2 * s['v'] + (1 - b2) * g * g
                         mh = s['m'] / (1 - b1 ** s['t']); vh = s['v'] / (1 - b2 ** s['t'])
-                        x = x - hp['lr'] * mh / (vh ** 0.5 + hp['eps'])
+                        x = x - hp['lr'] * _div(mh, vh ** 0.5 + hp['eps'])
                     th[i][k] = x
         traj.append([v for t in th for v in t])
     return traj
@@ -278,7 +291,7 @@ def oracle(c):
         if e == 'ctor': return
         seen.append([float(v) for p in ps for v in p.data.ravel()])
         if [id(p.data) for p in ps] != ids: flags['inplace'] = False
-        if any(p.data.dtype != np.float64 for p in ps): flags['dtype'] = False
+        if any(p.data.dtype != (np.float32 if c.get('dt') == 'f32' else np.float64) for p in ps): flags['dtype'] = False
     r = outcome(lambda: _run(c, observe))
     key = {'opt': c['opt']}
     if r == 'rejected':
@@ -290,7 +303,7 @@ def oracle(c):
     want = _spec(c)
     for k, (a, b) in enumerate(zip(seen, want)):
         for x, y in zip(a, b):
-            if abs(x - y) > 1e-9 * (1 + abs(x) + abs(y)):
+            if (x != x) != (y != y) or (x == x and abs(x - y) > (2e-6 if c.get('dt') == 'f32' else 1e-9) * (1 + abs(x) + abs(y))):
                 return {'key': dict(key, cls='trajectory'), 'case': _strip(c, k + 1), 'what': f'after event {k} ({c["evs"][k][0]}) parameters are {a}, the published recursion gives {b}'}
     if not flags['inplace']:
         return {'key': dict(key, cls='inplace'), 'case': _strip(c), 'what': 'p.data was replaced, not updated in place'}
@@ -300,7 +313,7 @@ def oracle(c):
 
 
 def _strip(c, nev=None):
-    return {'opt': c['opt'], 'hp': c['hp'], 'thetas': c['thetas'], 'rgs': c['rgs'], 'evs': c['evs'][:nev] if nev else c['evs'], 'seed_lay': c.get('seed_lay', 0)}
+    return {'opt': c['opt'], 'hp': c['hp'], 'thetas': c['thetas'], 'rgs': c['rgs'], 'evs': c['evs'][:nev] if nev else c['evs'], 'seed_lay': c.get('seed_lay', 0), 'dt': c.get('dt', 'f64')}
 
 
 def search(rng, tier):
